@@ -177,6 +177,8 @@ class Script:
             if r.random() < p.get("p_resume_bad", 0.01) and new_trial_id > 0:
                 return ["resume", r.randint(0, new_trial_id + 1), None]  # usually not paused / unknown
             ck = r.randint(0, max(0, new_trial_id - 1)) if (new_trial_id > 0 and r.random() < p.get("p_ckpt", 0.15)) else None
+            if r.random() < p.get("p_ckpt_missing", 0.0):
+                ck = new_trial_id + r.randint(0, 2)   # clone from a trial that does not exist: copy_checkpoint raises
             return ["start", r.randint(0, 999), ck]
         return self._next("sug", gen, None)
 
@@ -223,15 +225,17 @@ def make_backend_class():
         schedulers: it counts reports, and a resumed run continues after the epoch at which it was paused
         (as a training script restarted from the checkpoint of that moment would)."""
 
-        def __init__(self, script, log, config_key="x", num_type="float"):
+        def __init__(self, script, log, config_key="x", num_type="float", odd_field=None):
             super().__init__(delete_checkpoints=False)
             self.script, self.log, self.config_key = script, log, config_key
+            self.odd_field = odd_field   # an extra reported field whose NAME collides with a column TuningStatus uses
             self.cast = num_cast(num_type)
             # harness-side statistics of the results the polls returned (what the criterion fields refer to)
             self.truth = dict(evaluations=0, min_m=None, max_m=None, cost_by_trial={})
             script.backend = self
             self.workers = {}          # trial_id -> dict(status, metrics, config, created)
             self.copies = []
+            self.copy_fault = None
             self.n_polls = 0
             self.last_stdout_trial = None
             self.last_stdout_after_stop_all = False
@@ -264,6 +268,8 @@ def make_backend_class():
                         w["metrics"].append({"m": self.cast(metric), "epoch": w["epoch"], "idx": idx, "trial": t,
                                              ST_WORKER_COST: self.cast(cost), ST_WORKER_TIME: float(idx + 1),
                                              ST_WORKER_TIMESTAMP: ts})
+                        if self.odd_field is not None:
+                            w["metrics"][-1][self.odd_field] = "reported-%d" % idx
                     w["status"] = status
                     if status == "Failed" and self.in_poll:
                         # ground truth: this job ended Failed and a poll of the tuning loop is looking at it
@@ -289,6 +295,11 @@ def make_backend_class():
             pass
 
         def copy_checkpoint(self, src_trial_id, tgt_trial_id):
+            if src_trial_id not in self.workers:
+                # no trial of that id was ever started here, so there is no checkpoint to copy (fault inside the
+                # inherited TrialBackend.start_trial, raised while other trials may be running)
+                self.copy_fault = (src_trial_id, tgt_trial_id)
+                raise FileNotFoundError("no checkpoint of trial %s" % src_trial_id)
             self.copies.append((src_trial_id, tgt_trial_id))
 
         def delete_checkpoint(self, trial_id):
@@ -409,8 +420,11 @@ def make_scheduler_class():
     class ScriptedScheduler(TrialScheduler):
         """Answers ``suggest`` / ``on_trial_result`` from the script, logs every call."""
 
-        def __init__(self, script, log):
-            super().__init__(config_space={"x": randint(0, 1000000)})
+        def __init__(self, script, log, odd_config=None):
+            space = {"x": randint(0, 1000000)}
+            if odd_config is not None:
+                space[odd_config] = "configured"   # a (constant) hyperparameter with a colliding name
+            super().__init__(config_space=space)
             self.script, self.log = script, log
             self.mode = "min"
 
@@ -627,9 +641,10 @@ def run_tuner(params, script, scheduler_factory=None, hard_limit=400):
     trace = []
     log = trace.append
     logging.disable(logging.CRITICAL)
-    backend = make_backend_class()(script, log, num_type=params.get("num_type", "float"))
+    backend = make_backend_class()(script, log, num_type=params.get("num_type", "float"),
+                                   odd_field=params.get("odd_field"))
     if scheduler_factory is None:
-        scheduler = make_scheduler_class()(script, log)
+        scheduler = make_scheduler_class()(script, log, odd_config=params.get("odd_config"))
     else:
         scheduler = record_scheduler(scheduler_factory(), log)
     recorder = make_recorder_class()(log, hard_limit=hard_limit)
@@ -675,6 +690,8 @@ def run_tuner(params, script, scheduler_factory=None, hard_limit=400):
                                backend.last_stdout_trial]
                     # the failure-limit error of the finally block replaces an exception that was already in flight
                     replaced_exception = e.__context__ is not None
+                elif isinstance(e, FileNotFoundError) and backend.copy_fault is not None:
+                    outcome = ["ckpt_missing", backend.copy_fault[0]]
                 else:
                     outcome = ["exception", type(e).__name__, where, str(e)[:200]]
             # everything the checkers and the model comparison look at is taken here, after the (first) run
